@@ -114,6 +114,13 @@ func (f *Frame) execCall(instr *ssa.Call, cc *ssa.CallCommon, reach string, st *
 			f.eng.note("calls of context.CancelFunc values have no effect on modelled state")
 			return
 		}
+		if owner, isBc := f.top.bcastOwner[fv]; isBc {
+			// broadcast(): counted in the ghost bcastCalls[owner]
+			h := f.heap(st, "G_bcastCalls")
+			nh := f.ctx.Fresh("bcastCalls", heapSort("G_bcastCalls"))
+			f.ctx.Fact(fmt.Sprintf("(= %s (store %s %s (+ (select %s %s) 1)))", nh, h, owner, h, owner))
+			st.heaps["G_bcastCalls"] = nh
+		}
 		if f.top.noopFuncs[fv] {
 			// broadcast() / getWaitCh() inside a HoldLock callback: no effect on modelled state
 			f.setResult(instr, f.havocResults(sig, st, "bcast"))
